@@ -1,4 +1,395 @@
+/-
+  Lemmas/CircuitOrd.lean — lemmas for C12 in its ordered reading: every reported duration is a LATER reading of the
+  call minus an EARLIER one.  `cord_Prov` is the ordered provenance invariant on the observations, `cord_Rel` relates
+  the state before and after one primitive (readings are only appended, provenance is preserved); it is lifted
+  through the staged forms of `runStepMid` / `fallbackStep` / `executeMid` of Lemmas/CircuitMid.  The argument is
+  about POSITIONS in the list of readings, never about their values, so the sign of a script's clock advance is
+  irrelevant.
+-/
 import CircuitModel.CircuitMid
 import CircuitModel.Spec.Circuit
+import CircuitProofs.Lemmas.CircuitMid
 namespace CM
+open SpecCircuit
+
+/-! ### the list predicate -/
+
+theorem cord_lme_append (rs l : List Int) (d : Int) (h : isLaterMinusEarlier rs d = true) :
+    isLaterMinusEarlier (rs ++ l) d = true := by
+  induction rs with
+  | nil => simp [isLaterMinusEarlier] at h
+  | cons a rest ih =>
+    simp only [List.cons_append, isLaterMinusEarlier, Bool.or_eq_true, List.any_append] at h ⊢
+    rcases h with h | h
+    · exact Or.inl (Or.inl h)
+    · exact Or.inr (ih h)
+
+/-- a reading appended after `a` was taken, minus `a` -/
+theorem cord_lme_snoc (rs : List Int) (a b : Int) (h : a ∈ rs) :
+    isLaterMinusEarlier (rs ++ [b]) (b - a) = true := by
+  induction rs with
+  | nil => cases h
+  | cons x rest ih =>
+    simp only [List.cons_append, isLaterMinusEarlier, Bool.or_eq_true]
+    rcases List.mem_cons.1 h with rfl | h
+    · left; simp
+    · exact Or.inr (ih h)
+
+/-- the general positional form -/
+theorem cord_lme_split (pre mid post : List Int) (a b : Int) :
+    isLaterMinusEarlier (pre ++ a :: mid ++ b :: post) (b - a) = true := by
+  have h : isLaterMinusEarlier ((pre ++ a :: mid) ++ [b]) (b - a) = true :=
+    cord_lme_snoc (pre ++ a :: mid) a b (by simp)
+  have := cord_lme_append _ post _ h
+  simpa using this
+
+/-! ### ordered provenance -/
+
+def cord_emitOk (rs : List Int) : Emit → Prop
+  | .run k _ d => k = .reject ∨ k = .shortCircuit ∨ isLaterMinusEarlier rs d = true
+  | .fb k _ d => k = .reject ∨ isLaterMinusEarlier rs d = true
+  | .opened _ => True
+  | .closed _ => True
+
+def cord_Prov (o : Obs) : Prop := ∀ e ∈ o.emits, cord_emitOk o.readings e
+
+theorem cord_emitOk_mono {rs : List Int} (l : List Int) {e : Emit} (h : cord_emitOk rs e) :
+    cord_emitOk (rs ++ l) e := by
+  cases e with
+  | run k t d =>
+    rcases h with h | h | h
+    · exact Or.inl h
+    · exact Or.inr (Or.inl h)
+    · exact Or.inr (Or.inr (cord_lme_append rs l d h))
+  | fb k t d =>
+    rcases h with h | h
+    · exact Or.inl h
+    · exact Or.inr (cord_lme_append rs l d h)
+  | opened t => trivial
+  | closed t => trivial
+
+theorem cord_Prov_init : cord_Prov ({} : Obs) := fun _ h => by cases h
+
+theorem cord_Prov_nil {o : Obs} (h : o.emits = []) : cord_Prov o := fun e he => by
+  rw [h] at he; cases he
+
+/-- ordered provenance is exactly what the ordered C12 monitor checks -/
+theorem cord_verdict_of_prov {o : Obs} (h : cord_Prov o) : verdictC12o o.emits o.readings = none := by
+  simp only [verdictC12o]
+  rw [if_neg]
+  rw [Bool.not_eq_true, List.any_eq_false]
+  intro e he
+  have := h e he
+  cases e with
+  | run k t d =>
+    rcases this with h2 | h2 | h2
+    · simp [h2]
+    · simp [h2]
+    · simp [h2]
+  | fb k t d =>
+    rcases this with h2 | h2
+    · simp [h2]
+    · simp [h2]
+  | opened t => simp
+  | closed t => simp
+
+section
+variable {σo σc : Type} (O : OpenerI σo) (C : CloserI σc)
+
+/-! ### the step relation -/
+
+/-- from `s` to `s'` readings were only appended (never reordered or dropped) and ordered provenance is kept -/
+def cord_Rel (s s' : St σo σc) : Prop :=
+  (∃ l, s'.2.readings = s.2.readings ++ l) ∧ (cord_Prov s.2 → cord_Prov s'.2)
+
+theorem cord_Rel_refl (s : St σo σc) : cord_Rel s s := ⟨⟨[], by simp⟩, id⟩
+
+theorem cord_Rel_trans {s s' s'' : St σo σc} (h : cord_Rel s s') (h' : cord_Rel s' s'') : cord_Rel s s'' := by
+  obtain ⟨⟨l, hl⟩, p⟩ := h
+  obtain ⟨⟨l', hl'⟩, p'⟩ := h'
+  exact ⟨⟨l ++ l', by rw [hl', hl, List.append_assoc]⟩, fun x => p' (p x)⟩
+
+theorem cord_Rel_mem {s s' : St σo σc} (h : cord_Rel s s') {t : Int} (ht : t ∈ s.2.readings) :
+    t ∈ s'.2.readings := by
+  obtain ⟨⟨l, hl⟩, -⟩ := h
+  rw [hl]; exact List.mem_append_left _ ht
+
+theorem cord_Rel_lme {s s' : St σo σc} (h : cord_Rel s s') {d : Int}
+    (hd : isLaterMinusEarlier s.2.readings d = true) : isLaterMinusEarlier s'.2.readings d = true := by
+  obtain ⟨⟨l, hl⟩, -⟩ := h
+  rw [hl]; exact cord_lme_append _ l d hd
+
+/-- readings extended by `l`, events by `es`, each new event justified by the readings at the end -/
+theorem cord_Rel_intro {s s' : St σo σc} (l : List Int) (es : List Emit)
+    (hr : s'.2.readings = s.2.readings ++ l) (he : s'.2.emits = s.2.emits ++ es)
+    (ok : ∀ e ∈ es, cord_emitOk s'.2.readings e) : cord_Rel s s' := by
+  refine ⟨⟨l, hr⟩, fun p e hm => ?_⟩
+  rw [he] at hm
+  rcases List.mem_append.1 hm with hm | hm
+  · rw [hr]; exact cord_emitOk_mono l (p e hm)
+  · exact ok e hm
+
+theorem cord_Rel_of_eq {s s' : St σo σc} (hr : s'.2.readings = s.2.readings) (he : s'.2.emits = s.2.emits) :
+    cord_Rel s s' :=
+  cord_Rel_intro [] [] (by rw [hr]; simp) (by rw [he]; simp) (fun _ h => by cases h)
+
+theorem cord_Rel_snoc {s s' : St σo σc} (e : Emit) (hr : s'.2.readings = s.2.readings)
+    (he : s'.2.emits = s.2.emits ++ [e]) (ok : cord_emitOk s.2.readings e) : cord_Rel s s' :=
+  cord_Rel_intro [] [e] (by rw [hr]; simp) he (fun x hx => by
+    rw [List.mem_singleton.1 hx, hr]; exact ok)
+
+/-! ### the primitives -/
+
+theorem cord_Rel_now (s : St σo σc) : cord_Rel s (now s).2 :=
+  cord_Rel_intro [s.1.clock] [] rfl (by simp [now]) (fun _ h => by cases h)
+
+theorem cord_now_readings (s : St σo σc) : (now s).2.2.readings = s.2.readings ++ [(now s).1] := rfl
+
+theorem cord_now_mem (s : St σo σc) : (now s).1 ∈ (now s).2.2.readings := by simp [now]
+
+theorem cord_Rel_emitRun (s : St σo σc) (k : Kind) (t d : Int)
+    (hd : k = .reject ∨ k = .shortCircuit ∨ isLaterMinusEarlier s.2.readings d = true) :
+    cord_Rel s (emitRun O C s k t d) :=
+  cord_Rel_snoc (.run k t d) rfl rfl hd
+
+theorem cord_Rel_emitFb (s : St σo σc) (k : FbKind) (t d : Int)
+    (hd : k = .reject ∨ isLaterMinusEarlier s.2.readings d = true) :
+    cord_Rel s (emitFb s k t d) :=
+  cord_Rel_snoc (.fb k t d) rfl rfl hd
+
+theorem cord_Rel_openCircuit (s : St σo σc) (t : Int) : cord_Rel s (openCircuit O C s t) := by
+  unfold openCircuit
+  split
+  · exact cord_Rel_refl s
+  · split
+    · exact cord_Rel_refl s
+    · exact cord_Rel_snoc (.opened t) rfl rfl trivial
+
+theorem cord_Rel_attemptToOpen (s : St σo σc) (t : Int) : cord_Rel s (attemptToOpen O C s t) := by
+  unfold attemptToOpen
+  split
+  · exact cord_Rel_refl s
+  · split
+    · exact cord_Rel_refl s
+    · generalize O.shouldOpen s.1.opener t = p
+      obtain ⟨o, ans⟩ := p
+      cases ans
+      · exact cord_Rel_of_eq rfl rfl
+      · exact cord_Rel_trans (s' := ({ s.1 with opener := o }, s.2)) (cord_Rel_of_eq rfl rfl)
+          (cord_Rel_openCircuit O C ({ s.1 with opener := o }, s.2) t)
+
+theorem cord_Rel_closeCircuit (s : St σo σc) (t : Int) (force : Bool) :
+    cord_Rel s (closeCircuit O C s t force) := by
+  unfold closeCircuit
+  split
+  · exact cord_Rel_refl s
+  · split
+    · exact cord_Rel_refl s
+    · have key : ∀ c : σc, cord_Rel s
+          ({ s.1 with closer := C.onClosed c t, opener := O.onClosed s.1.opener t, isOpen := false },
+            { s.2 with emits := s.2.emits ++ [.closed t] }) := fun c =>
+        cord_Rel_snoc (.closed t) rfl rfl trivial
+      cases force
+      · generalize C.shouldClose s.1.closer t = p
+        obtain ⟨c, a⟩ := p
+        cases a
+        · exact cord_Rel_of_eq rfl rfl
+        · exact key c
+      · exact key s.1.closer
+
+theorem cord_allowNewRun_obs (s : St σo σc) (t : Int) : (allowNewRun C s t).1.2 = s.2 :=
+  (cmid_allowNewRun_frame C s t).2
+
+theorem cord_Rel_allowNewRun (s : St σo σc) (t : Int) : cord_Rel s (allowNewRun C s t).1 := by
+  have h := cord_allowNewRun_obs C s t
+  exact cord_Rel_of_eq (by rw [h]) (by rw [h])
+
+theorem cord_Rel_ite (b : Prop) [Decidable b] (s x y : St σo σc) (hx : cord_Rel s x) (hy : cord_Rel s y) :
+    cord_Rel s (if b then x else y) := by
+  split
+  · exact hx
+  · exact hy
+
+/-! ### the run -/
+
+/-- the classification chain reports `total`, which is already a later reading minus an earlier one -/
+theorem cord_Rel_tail (s : St σo σc) (ctx : CallerCtx) (sc : Script) (ret : Option ErrV)
+    (start toAtStart doneT total : Int) (ht : isLaterMinusEarlier s.2.readings total = true) :
+    cord_Rel s (cmid_tail O C s ctx sc ret start toAtStart doneT total) := by
+  have he : ∀ k, cord_Rel s (emitRun O C s k doneT total) := fun k =>
+    cord_Rel_emitRun O C s k doneT total (Or.inr (Or.inr ht))
+  have ha : ∀ k, cord_Rel s (if (!isOpenEff (emitRun O C s k doneT total).1) = true
+      then attemptToOpen O C (emitRun O C s k doneT total) doneT else emitRun O C s k doneT total) := fun k =>
+    cord_Rel_ite _ _ _ _ (cord_Rel_trans (he k) (cord_Rel_attemptToOpen O C _ doneT)) (he k)
+  unfold cmid_tail
+  apply cord_Rel_ite
+  · exact he _
+  apply cord_Rel_ite
+  · exact ha _
+  apply cord_Rel_ite
+  · exact he _
+  apply cord_Rel_ite
+  · exact ha _
+  apply cord_Rel_ite
+  · exact cord_Rel_trans (he _) (cord_Rel_closeCircuit O C _ doneT false)
+  · exact he _
+
+/-- `start` was read before the function ran; `endT` is read now, so it is LATER in the list -/
+theorem cord_Rel_classifyAt (s : St σo σc) (ctx : CallerCtx) (sc : Script) (ret : Option ErrV)
+    (start toAtStart : Int) (hs : start ∈ s.2.readings) :
+    cord_Rel s (classifyAt O C s ctx sc ret start toAtStart) := by
+  rw [cmid_classifyAt_tail]
+  have r1 : cord_Rel s (now s).2 := cord_Rel_now s
+  have r2 : cord_Rel (now s).2 (now (now s).2).2 := cord_Rel_now _
+  have h1 : isLaterMinusEarlier (now s).2.2.readings ((now s).1 - start) = true := by
+    rw [cord_now_readings]
+    exact cord_lme_snoc s.2.readings start (now s).1 hs
+  exact cord_Rel_trans (cord_Rel_trans r1 r2)
+    (cord_Rel_tail O C _ ctx sc ret start toAtStart _ _ (cord_Rel_lme r2 h1))
+
+theorem cord_Rel_classify (s : St σo σc) (ctx : CallerCtx) (sc : Script) (ret : Option ErrV)
+    (start : Int) (hs : start ∈ s.2.readings) : cord_Rel s (classify O C s ctx sc ret start) := by
+  rw [← cmid_classifyAt_eq]
+  exact cord_Rel_classifyAt O C s ctx sc ret start _ hs
+
+theorem cord_Rel_runBody (s : St σo σc) (ctx : CallerCtx) (sc : Script) (start : Int) (mid : Option LiveCfg)
+    (hs : start ∈ s.2.readings) : cord_Rel s (cmid_runBody O C s ctx sc start mid).1 := by
+  have hi : cord_Rel s (cmid_invoke s ctx sc start mid) := cord_Rel_of_eq rfl rfl
+  have hc : cord_Rel s (classifyAt O C (cmid_invoke s ctx sc start mid) ctx sc (actValue sc (ctxErrAfter ctx sc))
+      start s.1.cfg.timeout) :=
+    cord_Rel_trans hi (cord_Rel_classifyAt O C _ ctx sc _ start _ hs)
+  unfold cmid_runBody
+  cases sc.act
+  · exact cord_Rel_trans hc (cord_Rel_of_eq rfl rfl)
+  · exact cord_Rel_trans hc (cord_Rel_of_eq rfl rfl)
+  · exact cord_Rel_trans hi (cord_Rel_of_eq rfl rfl)
+
+theorem cord_Rel_runReject (s : St σo σc) (start : Int) : cord_Rel s (cmid_runReject O C s start) := by
+  unfold cmid_runReject
+  exact cord_Rel_trans (cord_Rel_emitRun O C s .reject start 0 (Or.inl rfl)) (cord_Rel_of_eq rfl rfl)
+
+theorem cord_Rel_runStepMid (s : St σo σc) (ctx : CallerCtx) (run : Option Script) (mid : Option LiveCfg) :
+    cord_Rel s (runStepMid O C s ctx run mid).1 := by
+  cases run with
+  | none => exact cord_Rel_refl s
+  | some sc =>
+    rw [cmid_runStepMid_some]
+    dsimp only
+    have r1 : cord_Rel s (now s).2 := cord_Rel_now s
+    have m1 : s.1.clock ∈ (now s).2.2.readings := cord_now_mem s
+    have r2 : cord_Rel (now s).2 (allowNewRun C (now s).2 s.1.clock).1 := cord_Rel_allowNewRun C _ _
+    generalize allowNewRun C (now s).2 s.1.clock = p at r2 ⊢
+    obtain ⟨⟨pc, po⟩, pa⟩ := p
+    dsimp only at r2 ⊢
+    have r : cord_Rel s ((pc, po) : St σo σc) := cord_Rel_trans r1 r2
+    have m : s.1.clock ∈ po.readings := cord_Rel_mem r2 m1
+    split
+    · exact cord_Rel_trans r (cord_Rel_emitRun O C (pc, po) .shortCircuit s.1.clock 0 (Or.inr (Or.inl rfl)))
+    · split
+      · exact cord_Rel_trans r (cord_Rel_of_eq rfl rfl)
+      · generalize (O.prevent pc.opener s.1.clock).1 = o
+        have r3 : cord_Rel ((pc, po) : St σo σc) (({ pc with opener := o, conc := pc.conc + 1 }, po) : St σo σc) :=
+          cord_Rel_of_eq rfl rfl
+        split
+        · exact cord_Rel_trans r (cord_Rel_trans r3 (cord_Rel_runReject O C _ s.1.clock))
+        · exact cord_Rel_trans r (cord_Rel_trans r3 (cord_Rel_runBody O C _ ctx sc s.1.clock mid m))
+
+theorem cord_Rel_runStep (s : St σo σc) (ctx : CallerCtx) (run : Option Script) :
+    cord_Rel s (runStep O C s ctx run).1 := by
+  rw [← cmid_runStepMid_none]
+  exact cord_Rel_runStepMid O C s ctx run none
+
+/-! ### the fallback -/
+
+theorem cord_Rel_fbReject (s : St σo σc) : cord_Rel s (cmid_fbReject s) := by
+  unfold cmid_fbReject
+  exact cord_Rel_trans (s' := (now s).2) (cord_Rel_now s)
+    (cord_Rel_trans (cord_Rel_emitFb (now s).2 .reject (now s).1 0 (Or.inl rfl)) (cord_Rel_of_eq rfl rfl))
+
+/-- `start` read before the fallback ran, `endT` after it: positions, not values -/
+theorem cord_Rel_fbBody (s : St σo σc) (seen : Bool) (ctx : CallerCtx) (runSc : Option Script) (err : ErrV)
+    (sc : Script) : cord_Rel s (cmid_fbBody s seen ctx runSc err sc).1 := by
+  -- the state in which the fallback returns, and the state after the second reading
+  let s1 : St σo σc := ({ (now s).2.1 with clock := (now s).2.1.clock + sc.adv },
+    { (now s).2.2 with fbArg := some err, fbSameCtx := true })
+  have r1 : cord_Rel s s1 := cord_Rel_trans (cord_Rel_now s) (cord_Rel_of_eq rfl rfl)
+  have r2 : cord_Rel s (now s1).2 := cord_Rel_trans r1 (cord_Rel_now s1)
+  have hl : isLaterMinusEarlier (now s1).2.2.readings ((now s1).1 - (now s).1) = true := by
+    rw [cord_now_readings]
+    exact cord_lme_snoc s1.2.readings (now s).1 (now s1).1 (cord_now_mem s)
+  have hk : ∀ k, cord_Rel s (emitFb (now s1).2 k (now s).1 ((now s1).1 - (now s).1)) := fun k =>
+    cord_Rel_trans r2 (cord_Rel_emitFb _ k _ _ (Or.inr hl))
+  unfold cmid_fbBody
+  cases hact : sc.act
+  · dsimp only
+    generalize actValue sc _ = r
+    cases r
+    · exact cord_Rel_trans (hk .success) (cord_Rel_of_eq rfl rfl)
+    · exact cord_Rel_trans (hk .failure) (cord_Rel_of_eq rfl rfl)
+  · dsimp only
+    generalize actValue sc _ = r
+    cases r
+    · exact cord_Rel_trans (hk .success) (cord_Rel_of_eq rfl rfl)
+    · exact cord_Rel_trans (hk .failure) (cord_Rel_of_eq rfl rfl)
+  · exact cord_Rel_trans r1 (cord_Rel_of_eq rfl rfl)
+
+theorem cord_Rel_fallbackStep (s : St σo σc) (ctx : CallerCtx) (runSc : Option Script) (err : ErrV)
+    (fb : Option Script) : cord_Rel s (fallbackStep s ctx runSc err fb).1 := by
+  cases fb with
+  | none => exact cord_Rel_refl s
+  | some sc =>
+    rw [cmid_fallbackStep_some]
+    split
+    · exact cord_Rel_refl s
+    · split
+      · exact cord_Rel_trans (s' := ({ s.1 with concFb := s.1.concFb + 1 }, s.2)) (cord_Rel_of_eq rfl rfl)
+          (cord_Rel_fbReject _)
+      · exact cord_Rel_trans (s' := ({ s.1 with concFb := s.1.concFb + 1 }, s.2)) (cord_Rel_of_eq rfl rfl)
+          (cord_Rel_fbBody _ _ ctx runSc err sc)
+
+/-! ### Execute -/
+
+theorem cord_Rel_execTail (p : St σo σc × Res) (ctx : CallerCtx) (run fb : Option Script) :
+    cord_Rel p.1 ((cmid_execTail p ctx run fb).1, (cmid_execTail p ctx run fb).2.1) := by
+  obtain ⟨s, r⟩ := p
+  unfold cmid_execTail
+  cases r with
+  | ret e =>
+    cases e with
+    | none => exact cord_Rel_refl s
+    | some e =>
+      dsimp only
+      split
+      · exact cord_Rel_refl s
+      · exact cord_Rel_fallbackStep s ctx run e fb
+  | panic v => exact cord_Rel_refl s
+  | nilFunc => exact cord_Rel_refl s
+
+/-- the pass-through branch delivers no callback -/
+theorem cord_executeMid_disabled_emits (c : Circ σo σc) (ctx : CallerCtx) (run fb : Option Script)
+    (mid : Option LiveCfg) (h : c.cfg.disabled = true) : (executeMid O C c ctx run fb mid).2.1.emits = [] := by
+  unfold executeMid
+  rw [if_pos h]
+  cases run with
+  | none => rfl
+  | some sc =>
+    dsimp only
+    cases sc.act <;> rfl
+
+theorem cord_executeMid_prov (c : Circ σo σc) (ctx : CallerCtx) (run fb : Option Script) (mid : Option LiveCfg) :
+    cord_Prov (executeMid O C c ctx run fb mid).2.1 := by
+  cases h : c.cfg.disabled with
+  | true => exact cord_Prov_nil (cord_executeMid_disabled_emits O C c ctx run fb mid h)
+  | false =>
+    rw [cmid_executeMid_enabled O C c ctx run fb mid h]
+    have r1 := cord_Rel_runStepMid O C ((c, {}) : St σo σc) ctx run mid
+    have r2 := cord_Rel_execTail (runStepMid O C (c, {}) ctx run mid) ctx run fb
+    exact (cord_Rel_trans r1 r2).2 cord_Prov_init
+
+theorem cord_execute_prov (c : Circ σo σc) (ctx : CallerCtx) (run fb : Option Script) :
+    cord_Prov (execute O C c ctx run fb).2.1 := by
+  rw [← cmid_executeMid_none]
+  exact cord_executeMid_prov O C c ctx run fb none
+
+end
 end CM
